@@ -270,6 +270,7 @@ enum UnsolicitedResult {
 enum UnsolicitedWaitResult {
     Timeout,
     ReadNext,
+    BroadcastReceived,
     Complete(UnsolicitedResult),
 }
 
@@ -685,6 +686,10 @@ impl OutstationSession {
 
         let mut deadline = self.new_confirm_deadline();
 
+        // the confirm of this response clears the broadcast indication only if the response
+        // reported it (IIN1.0) and no other broadcast was received after it was written
+        let mut reported_broadcast = response.header.iin.iin1.get_broadcast();
+
         loop {
             match self
                 .wait_for_unsolicited_confirm(
@@ -704,7 +709,17 @@ impl OutstationSession {
                 UnsolicitedWaitResult::ReadNext => {
                     // just go to next iteration without changing the deadline
                 }
-                UnsolicitedWaitResult::Complete(result) => return Ok(result),
+                UnsolicitedWaitResult::BroadcastReceived => {
+                    reported_broadcast = false;
+                }
+                UnsolicitedWaitResult::Complete(result) => {
+                    if let UnsolicitedResult::Confirmed = result {
+                        if reported_broadcast {
+                            self.state.last_broadcast_type = None;
+                        }
+                    }
+                    return Ok(result);
+                }
                 UnsolicitedWaitResult::Timeout => {
                     let mut retry = retry_count.decrement();
 
@@ -764,7 +779,6 @@ impl OutstationSession {
         match self.classify(info, request) {
             FragmentType::UnsolicitedConfirm(seq) => {
                 if seq == uns_ecsn {
-                    self.state.last_broadcast_type = None;
                     self.info.unsolicited_confirmed(seq);
                     Ok(UnsolicitedWaitResult::Complete(
                         UnsolicitedResult::Confirmed,
@@ -789,7 +803,7 @@ impl OutstationSession {
                 self.state.deferred_read.clear();
                 self.process_broadcast(info.id, database, mode, request)
                     .await;
-                Ok(UnsolicitedWaitResult::ReadNext)
+                Ok(UnsolicitedWaitResult::BroadcastReceived)
             }
             FragmentType::MalformedRequest(_, err) => {
                 self.state.deferred_read.clear();
